@@ -163,6 +163,8 @@ def play(ctx, rng, fam, seq, peer, box, label, batches=False):
                 out = ("return", proxy.echo(token))
             else:
                 mc.echo(token + "/0")
+                if n % 2:
+                    mc._notify.echo(token + "/n")      # a notification between the two calls: no reply entry
                 mc.echo(token + "/1")
                 got = [r for r in mc()]
                 ctx.count("judged:batch-calls")
